@@ -17,8 +17,10 @@ MANIFEST = {
                  "correspondence of the model against the real StackAllocator (H1) and the real "
                  "actions/applier on a CoreState (H3)",
     "text": "Theorems: a request that does not fit returns null with the size restored; "
-            "successful ranges are disjoint and within capacity for every request sequence and "
-            "for every interleaving of any number of threads (no 32-bit wrap assumed); a failed "
+            "successful ranges are disjoint and within capacity for every request sequence and, "
+            "for every schedule of any number of threads over the atomic steps fetch-add / check "
+            "/ restoring store, after every prefix of the schedule (interleaved_allocs_disjoint, "
+            "no 32-bit wrap assumed), with size = initial + granted <= capacity at quiescence; a failed "
             "interaction leaves energy, direction, status, deposition, secondaries and the stack "
             "untouched; initializer/primary capacity is validated before any initializer is "
             "written and reset re-establishes the C02 invariant.  Correspondence: random op "
@@ -193,6 +195,48 @@ def run_stack(ctx, broken, ps):
             "stack_distinct": len(distinct), "stack_sample": scripts[n_corpus][:8]}
 
 
+def run_interleave(ctx, ps):
+    """model-side: random systems and schedules through the interleaving semantics of the Lean
+    driver; the conclusions of `interleaved_allocs_disjoint` are re-evaluated on the outputs
+    (guards the statement/driver, the proof is what covers all schedules)."""
+    if not ps["model_ok"]:
+        return {}
+    rng = ctx.rng
+    lines, meta = [], []
+    for _ in range(150 if ctx.quick() else 2000):
+        cap = rng.range(0, 24)
+        base = rng.below(cap + 1)
+        nth = rng.range(1, 7)
+        ns = [rng.choice([1, 1, 2, 3, rng.range(1, cap + 2)]) for _ in range(nth)]
+        sched = [rng.below(nth) for _ in range(rng.range(0, 4 * nth))]
+        if rng.chance(1, 2):
+            sched += [i for i in range(nth) for _ in range(3)]      # run to quiescence
+        lines.append("threads %x %x " % (cap, base) + " ".join("%x" % n for n in ns))
+        lines.append("sched " + " ".join("%x" % i for i in sched))
+        meta.append((cap, base, ns))
+    _, out = vlib.run_lines([vlib.model_exe("C16")], lines)
+    bad = 0
+    for k, (cap, base, ns) in enumerate(meta):
+        o = out[2 * k + 1].split(" : ")
+        size = int(o[0].split()[4])
+        ths = [t.split("/") for t in (o[1].split() if len(o) > 1 else [])]
+        oks = [(int(pc.split(":")[1]), int(n)) for n, pc in ths if pc.startswith("ok:")]
+        fine = all(base <= a and a + n <= cap for a, n in oks)
+        for i in range(len(oks)):
+            for j in range(i + 1, len(oks)):
+                a, n = oks[i]
+                b, m = oks[j]
+                fine = fine and (a + n <= b or b + m <= a)
+        if all(pc.startswith("ok:") or pc == "failed" for _, pc in ths):
+            fine = fine and size == base + sum(n for _, n in oks) and size <= cap
+        if not fine and bad < 3:
+            bad += 1
+            ctx.violation("interleave-model", "interleaving model contradicts "
+                          "interleaved_allocs_disjoint", {"ops": lines[2 * k:2 * k + 2],
+                                                          "model": out[2 * k + 1]})
+    return {"interleave_systems": len(meta)}
+
+
 def run_loop(ctx, broken, ps):
     """H3 part: starved secondary stack / tight initializer capacity on a real CoreState (the
     real InteractionApplier + StackAllocator + capacity checks in the real action loop)."""
@@ -242,6 +286,7 @@ def run(ctx):
     ]
     cov = run_stack(ctx, broken, ps)
     cov.update(run_loop(ctx, broken, ps))
+    cov.update(run_interleave(ctx, ps))
     if broken and not ctx.violations:
         ctx.violation("unproved", "; ".join(broken)[:600],
                       {"no_longer_checks": broken, "diverging": cov.get("stack_diverging")},
